@@ -18,6 +18,7 @@ import Driver.Lifecycle
 import Driver.Dispatch
 import Driver.Simd
 import Driver.BufCfg
+import Driver.ToolGate
 
 def main (args : List String) : IO UInt32 := do
   match args with
@@ -41,4 +42,5 @@ def main (args : List String) : IO UInt32 := do
   | ["dispatch"] => Driver.dispatchMain; return 0
   | ["simd"] => Driver.simdMain; return 0
   | ["bufcfg"] => Driver.bufCfgMain; return 0
+  | ["toolgate"] => Driver.toolGateMain; return 0
   | _ => IO.eprintln "usage: svtmodel <subcommand>  (input on stdin, one op per line)"; return 2
